@@ -94,6 +94,9 @@ def gen_plan(rng, tier, i):
             az = sorted(rng.uniform(0.05, 6.2) for _ in range(n - 1)) + [2 * math.pi]
             st["mask"] = [az, [round(rng.uniform(0.0, 0.35), 3) for _ in range(n)]]
         stations.append(st)
+    for sp in pool:
+        if sp["kind"] == "ephem" and rng.random() < 0.3:
+            sp["in_frame"] = rng.choice(stations)["name"]  # the ephemeris is expressed in the topocentric frame of a station
     listeners = []
     for _ in range(rng.randint(2, 5)):
         ls = dict(rng.choice(LISTENER_TYPES))
